@@ -262,6 +262,8 @@ def check_protocol(fx, R, cq, dim):
                 R.undecided('Y3', cname + '::cast()', 'cast loop stops on a comparison of crossing parameters; it gives the right count on the border witnesses, the general case is a floating-point statement')
         elif until_end_cell(fx, R, cq, cname, c0, s0):
             pass
+        elif cast_by_value(fx, R, cname, c0):
+            pass
         else:
             R.undecided('Y3', cname + '::cast()', 'cast loop idiom not recognised: %s' % (got0,))
     # ---- Y4 ordering ---------------------------------------------------------
@@ -357,6 +359,44 @@ def fast_paths(fx, R, cname, c0):
     c1['body'] = dict(c0['body'])
     c1['body']['s'] = [x_ for x_ in top if not any(x_ is f_ for f_ in fast)]
     return c1
+
+
+def cast_by_value(fx, R, cname, c0):
+    """A cast loop in another spelling (push_back, do/while, for): the body of cast() is executed (E-STEP, concrete sequences) with computeRayNumberOfCells() = N and next(c) abstracted as c -> c + 1 on a scalar
+    cell, for N = 1, 2, 3, 6.  The returned sequence must be origin, origin + 1, ..., origin + N - 1: N entries, entry 0 the origin cell, one next() per further entry.  N = 1 is the ray inside one cell,
+    which the property names.  Returns True when a verdict was given."""
+    from .. import mini
+    bad = None
+    for N in (1, 2, 3, 6):
+        S_ = mini.Step(deep_unwrap)
+        mini.list_hooks(S_, loops=200)
+        S_.hooks['.computeRayNumberOfCells'] = lambda t, env, N=N: N
+
+        def nx(t, env, S_=S_):
+            k_ = S_.key(t[2])
+            env[k_] = env[k_] + 1
+            return None
+        S_.hooks['.next'] = nx
+        env = {'this.rayOriginIndexes_': 7}
+        try:
+            got = S_.call(c0['body'], env)
+        except (mini.Unsupported, TypeError, KeyError, IndexError) as u:
+            if 'outside a sequence' in str(u):
+                bad = bad or (N, 'writes outside the %s' % str(u).split('Unsupported')[-1].strip(), None)
+                continue
+            return False
+        want = [7 + k_ for k_ in range(N)]
+        if not isinstance(got, list):
+            return False
+        if got != want:
+            bad = bad or (N, 'returns %d entries: cells origin%s' % (len(got), ', '.join('%+d' % (g_ - 7) if isinstance(g_, int) else '?' for g_ in got[:8])), got)
+    if bad:
+        R.violated('Y3', cname.split('<')[0] + '::cast():count-by-value', 'executing cast() with computeRayNumberOfCells() = %d (next() abstracted as one step along the ray), it %s; the walk must give exactly %d entries, the origin cell '
+                   'first and one next() per further entry%s [%s]' % (bad[0], bad[1], bad[0], ' - for a ray inside a single cell the result must be that one cell, here next() is run on it and a neighbour cell the segment '
+                                                                 'does not touch is reported' if bad[0] == 1 else '', cname), fx.rel(c0['loc']), 'E-STEP')
+    else:
+        R.holds('Y3', cname + '::cast()', 'executed with N = 1, 2, 3, 6: N entries, entry 0 = origin cell, one next() per further entry', fx.rel(c0['loc']), 'E-STEP')
+    return True
 
 
 def until_end_cell(fx, R, cq, cname, c0, s0):
